@@ -462,7 +462,8 @@ class DefinitionsArm(Arm):
             nts = sorted(spec["ntypes"])
             local = sorted(draw(st.sets(st.sampled_from(nts), max_size=len(nts)))) if draw(st.booleans()) else None
             return {"spec": spec, "plan": plan, "same_names": draw(st.sampled_from([False, False, True])),
-                    "dict_decl": draw(st.booleans()), "split": local}
+                    "dict_decl": draw(st.booleans()), "split": local,
+                    "rewrite_style": draw(st.sampled_from([None, None, "plain", "dot_slash", "dotted_dir", "dotted"]))}
         return case()
 
     def valid(self, case):
@@ -564,6 +565,28 @@ class DefinitionsArm(Arm):
                 isolate.reset(remove_files=False)
                 return CircuitTemplate.from_yaml(f"{d}/rt/net")
             variants.append(("roundtrip", rt))
+            # (W) write - load - write - load on ONE file without any cache reset in between: the second load must see the
+            # file as it is now (the first version has other parameter values and weights), whatever notation names it
+            if case.get("rewrite_style"):
+                sty = case["rewrite_style"]
+                sub = f"{d}/v.1" if sty == "dotted_dir" else d
+                ref_path = {"plain": f"{sub}/rw/net", "dot_slash": f"./{sub}/rw/net", "dotted_dir": f"{sub}/rw/net",
+                            "dotted": f"{sub}.rw.net"}[sty]
+                def rw():
+                    os.makedirs(sub, exist_ok=True)
+                    old = copy.deepcopy(spec)
+                    for o in old["ops"].values():
+                        for v in o["vars"]:
+                            if v[1] in ("const", "state"):
+                                v[2] = round(float(v[2]) * 0.5 + 0.3, 4)
+                    for e in old["edges"]:
+                        e["w"] = round(float(e["w"]) * -0.5 + 0.25, 4)
+                    build_circuit(old, name="net").to_yaml(f"{sub}/rw.yaml")
+                    first = CircuitTemplate.from_yaml(ref_path)
+                    build_P().to_yaml(f"{sub}/rw.yaml")
+                    return CircuitTemplate.from_yaml(ref_path)
+                variants.append(("rewrite:" + sty, rw))
+                res.labels = sorted(set(res.labels) | {"rewrite:" + sty})
             if plan["ops"] or plan.get("split_circuit"):
                 dump(derived_docs(spec, plan), f"{d}/derived.yaml")
                 variants.append(("derived-yaml", lambda: CircuitTemplate.from_yaml(f"{d}/derived/net")))
